@@ -551,6 +551,11 @@ def evaluate(ctx, pid, results):
                 elif len(ctx.samples) < 3 and nontriv and wf:
                     ctx.sample({"model": m, "weights": {k: v["weights"] for k, v in g["nodes"].items() if v["type"] == 1}})
         elif pid == "C06":
+            if not r["unchanged"]:
+                # "regardless of concurrent builds in other goroutines": a builder that writes to the model it is given (e.g. sorts
+                # the caller's type definitions in place) makes two builds of one model object race on it - the input is the
+                # model together with the schedule "two goroutines build this object at once"
+                ctx.violation("builder-writes-to-shared-input", {"model": m, "why": "building the weighted graph modified the model it was given: concurrent builds of the same model object race on it, so a build's outcome depends on the builds running beside it"})
             allr = [a for (_, a, _) in r["ordered"]] + r["builds"] + r.get("variant", [])
             distinct = []
             for a in allr:
